@@ -7,7 +7,7 @@ use casbin::Model;
 pub fn run_txt(toks: &[&str]) -> String {
     let t = dec(toks[1]);
     match toks[0] {
-        "csv" => match vh::parse_csv_line(&t) {
+        "csv" | "csvx" => match vh::parse_csv_line(&t) {
             None => "N".to_string(),
             Some(v) => enc_rule(&v),
         },
@@ -26,6 +26,33 @@ pub fn run_txt(toks: &[&str]) -> String {
                     }
                 }
             }
+        }
+        "mdl2" | "tt" => {
+            // mdl2 <plain> <layout>: both dumps; tt <text>: dump, and dump of from_str(to_text(..))
+            let rt = crate::eng::rt();
+            let dump = |m: &DefaultModel| -> String {
+                let mut out = vec![];
+                for sec in ["r", "p", "e", "m", "g"] {
+                    if let Some(am) = m.get_model().get(sec) {
+                        for (k, a) in am {
+                            out.push(format!("{}^{}^{}^{}", sec, enc(k), enc(&a.value), enc_rule(&a.tokens)));
+                        }
+                    }
+                }
+                if out.is_empty() { "-".to_string() } else { out.join("+") }
+            };
+            let a = rt.block_on(DefaultModel::from_str(&t));
+            let second_text = if toks[0] == "mdl2" {
+                Some(dec(toks[2]))
+            } else {
+                a.as_ref().ok().map(|m| m.to_text())
+            };
+            let b = match second_text {
+                Some(t2) => rt.block_on(DefaultModel::from_str(&t2)).map(|m| dump(&m)).unwrap_or_else(|_| "E".to_string()),
+                None => "E".to_string(),
+            };
+            let a = a.map(|m| dump(&m)).unwrap_or_else(|_| "E".to_string());
+            format!("{} ## {}", a, b)
         }
         "mdl" | "totext" => {
             let rt = crate::eng::rt();
